@@ -14,8 +14,12 @@ Trace == ndJsonDeserialize(IOEnv.VERIF_TRACE)
 NoMap == [x \in {} |-> 0]
 TraceInit == MInit /\ l = 1 /\ dead = TRUE /\ nviol = 0 /\ rmap = NoMap /\ imap = NoMap
 
+\* calls whose result is octets (or a string) handed to the caller: PDU encoders, String(), the splitters, the
+\* UCS-2 helper, the text codecs and GSM 7-bit functions, the batch encoder, the packet-building helpers
+ByteResults == {"Encode", "String", "Split", "Ucs2", "Codec", "Build", "Helper"}
+
 Act(e) ==
-  CASE e.ev \in {"Encode", "String", "Split", "Ucs2"} -> Encode(1)
+  CASE e.ev \in ByteResults -> Encode(1)
     [] e.ev = "NewInput" -> NewInput
     [] e.ev = "Decode" -> Decode(IF e.i = 0 THEN Reader ELSE imap[e.i])
     [] e.ev = "Scribble" -> Scribble(imap[e.i])
@@ -24,7 +28,7 @@ Act(e) ==
     [] e.ev = "FrameDecode" -> FrameDecode
     [] e.ev = "Forget" -> Forget(rmap[e.r])
 
-MakesResult(e) == e.ev \in {"Encode", "String", "Split", "Ucs2", "Decode", "FrameDecode"}
+MakesResult(e) == e.ev \in ByteResults \cup {"Decode", "FrameDecode"}
 
 Bad(e) ==
   (IF \E id \in { e.changed[k] : k \in 1..Len(e.changed) } :
